@@ -490,7 +490,7 @@ def main(
                     line = line.strip()
                     if line.endswith("="):
                         line += "n"
-                        log.note(f"{escape(path_out)}:{line_num} line was updated to {line}")
+                        log.note(f"{escape(path_in)}:{line_num} line was updated to {line}")
                     f_out.write(line)
                     f_out.write("\n")
 
@@ -505,6 +505,11 @@ def main(
                     temp_file = f.name
                 _replace_empty_assignments(name, temp_file)
                 config.load_config(temp_file, replace=False)
+                # The values come from the defaults file, not from the scratch copy it was preprocessed into: a report
+                # must not name a randomly named temporary file (it would differ from run to run).
+                for item in list(config.unique_defined_syms) + list(config.unique_choices):
+                    if item._user_source == temp_file:
+                        item._user_source = name
 
                 for symbol, value in config.missing_syms:
                     log.note(f"unknown kconfig symbol '{escape(symbol)}' assigned to '{escape(str(value))}' in {name}")
